@@ -628,6 +628,98 @@ fn mutate_text(rng: &mut Rng, base: &str, stats: &mut Stats) -> (String, String)
     (t, what.join("+"))
 }
 
+// ------------------------------------------------------------------ witnesses of real BMC runs
+/// description of a witness produced by the implementation (arrays: contents at the recorded indices)
+fn wit_of_real(w: &Witness) -> Wit {
+    let arr = |a: &ArrayValue, indices: &[BitVecValue]| {
+        let dw = a.data_width();
+        Arr {
+            iw: a.index_width(),
+            dense: a.is_dense(),
+            default: bits_from(&"0".repeat(dw as usize)),
+            stores: indices.iter().map(|i| (i.clone(), a.select(i))).collect(),
+            indices: indices.to_vec(),
+        }
+    };
+    Wit {
+        init: w
+            .init
+            .iter()
+            .map(|v| match v {
+                InitValue::BitVec(b) => Val::Bv(b.clone()),
+                InitValue::Array(a, idx) => Val::Arr(arr(a, idx)),
+                InitValue::None => Val::None,
+            })
+            .collect(),
+        init_names: w.init_names.clone(),
+        inputs: w
+            .inputs
+            .iter()
+            .map(|f| {
+                f.iter()
+                    .map(|v| match v {
+                        Some(Value::BitVec(b)) => Val::Bv(b.clone()),
+                        Some(Value::Array(a)) => Val::Arr(arr(a, &[])),
+                        None => Val::None,
+                    })
+                    .collect()
+            })
+            .collect(),
+        input_names: w.input_names.clone(),
+        failed: w.failed_safety.clone(),
+    }
+}
+
+/// run patronus' own BMC (z3) on small btor2 files of the repository and feed every counterexample
+/// through the round trip
+fn bmc_witnesses(stats: &mut Stats, max_files: usize, only: Option<&str>) -> Vec<(String, Wit)> {
+    use patronus::mc::{ModelCheckResult, bmc};
+    use patronus::smt::{Solver, Z3};
+    let mut files: Vec<std::path::PathBuf> = vec![];
+    for dir in ["/repo/inputs/chiseltest", "/repo/inputs/unittest"] {
+        if let Ok(rd) = std::fs::read_dir(dir) {
+            for e in rd.flatten() {
+                let p = e.path();
+                let small = e.metadata().map(|m| m.len() < 20_000).unwrap_or(false);
+                if small && p.extension().map(|x| x == "btor" || x == "btor2").unwrap_or(false) {
+                    files.push(p);
+                }
+            }
+        }
+    }
+    files.sort();
+    if let Some(list) = only {
+        files = list.split(',').map(|f| std::path::PathBuf::from(format!("/repo/inputs/{f}"))).collect();
+    }
+    let mut out = vec![];
+    for p in files.iter() {
+        if out.len() >= max_files {
+            break;
+        }
+        let name = p.file_name().unwrap().to_string_lossy().to_string();
+        let res = guarded(|| {
+            let (mut ctx, sys) = btor2::parse_file(p)?;
+            if sys.bad_states.is_empty() {
+                return None;
+            }
+            let mut solver = Z3.start(None).ok()?;
+            match bmc(&mut ctx, &mut solver, &sys, false, false, 20) {
+                Ok(ModelCheckResult::Fail(w)) => Some(wit_of_real(&w)),
+                _ => None,
+            }
+        });
+        match res {
+            Ok(Some(w)) => {
+                stats.bump("bmc_file", "counterexample");
+                out.push((name, w));
+            }
+            Ok(None) => stats.bump("bmc_file", "no-counterexample-or-unreadable"),
+            Err(_) => stats.bump("bmc_file", "panic"),
+        }
+    }
+    out
+}
+
 // ------------------------------------------------------------------ running the implementation
 fn panic_loc() -> String {
     quote(&last_panic_loc())
@@ -734,6 +826,26 @@ pub fn run(args: &Args) {
         }
     }
     let mode = args.get("mode").unwrap_or("mix").to_string();
+    if mode == "bmc" {
+        let max_files = args.get_u64("files-max", 1000) as usize;
+        for (name, w) in bmc_witnesses(&mut stats, max_files, args.get("files")) {
+            stats.bump("kind", "stream-bmc");
+            stats.bump("n_states", &w.init.len().to_string());
+            stats.bump("n_steps", &w.inputs.len().to_string());
+            let id: String = name.chars().map(|c| if c.is_ascii_alphanumeric() { c } else { '_' }).collect();
+            let line = run_stream(&format!("bmc-{id}"), &[w.clone()], 1, &mut stats);
+            distinct.insert(key_of(&line));
+            stats.sample(&line, 3);
+            writeln!(out, "{line}").unwrap();
+            // and twice in a row, read as a stream
+            let line = run_stream(&format!("bmc2-{id}"), &[w.clone(), w], 2, &mut stats);
+            distinct.insert(key_of(&line));
+            writeln!(out, "{line}").unwrap();
+        }
+        stats.add("distinct_cases", distinct.len() as u64);
+        stats.write(&args.out);
+        return;
+    }
     for id in 0..args.count {
         let mut r = rng.fork();
         let k = r.below(100);
